@@ -21,8 +21,19 @@ canonical atoms about *the subject path or an alias of it* (`x.resolve()`, `x.ab
 
 plus opaque atoms for everything else; boolean locals are copy-propagated and calls of repo helpers are replaced by the truth
 condition of their result (`if self._file_should_be_parsed(p)`, `if parsed_file:` where parsed_file = self._parse_file(p)).
-Requirement: guard => not EXCL for directory events (guard => ISDIR), guard => not EXCL and PY for file events.  The predicate applied
-to something that is not an alias of the path (`p.name`) is an opaque atom, so such a gate does not discharge anything.
+Requirement: guard => not EXCL for every event, and (guard and ISFILE) => PY for every read / parse / register event.  The predicate
+applied to something that is not an alias of the path (`p.name`, `p.parent`) is an opaque atom, so such a gate discharges nothing
+(VIOLATION, naming what the test was applied to).
+
+Further ingredients
+  * work lists: a path taken out of a list by `.pop()` inherits the disjunction of the guards under which paths are put into that
+    list (initial content, append, `extend(c for c in ... if ...)`), projected on the canonical atoms - "filter before pushing";
+  * forward reachability: next to the syntax-directed conditions of core/cfg a forward pass computes what holds after an `if` whose
+    body only sometimes leaves the block; facts about re-assigned / mutated variables are dropped (existentially quantified);
+  * helpers of the filter class that wrap the predicate (`filter.is_python_file_to_parse(p)`) are not predicates themselves: their
+    result is inlined like any other helper's;
+  * a verdict that travels through a container or a variable assigned more than once cannot be followed: such an event is reported
+    as undecided (exit 2), never as a violation.
 """
 
 from __future__ import annotations
